@@ -38,21 +38,24 @@ Hypotheses of the clean form (all defined, with their justification, in `Perp/Pr
 * `SatC11.SenderOutside w s` — **wiring** (kind b, implied by `Wired w ∧ UserSender w s`,
   `SatC11.SenderOutside.of_wired`): the sender is not the vault / configured insurance fund / fee pool.
   Needed by clause `funding-skipped-when-closing-by-reversal` (the payout is read off the transfer list).
-* `w.engine.cfg.mmr ≠ 0` and `SatC11.StaleClean w s tx` — **sub-case** (rule 3), both for clause
+* `w.engine.cfg.mmr ≠ 0` — **sub-case** (rule 3), for clause
   `funding-skipped-when-closing-by-reversal`: with a maintenance ratio of 0 an order against an opposite
   record can end at size exactly 0 without going through the closing branch of the reversal (a reduce that
   rounds to the whole size, `SatEWitness.c11_witness`; a second leg that buys 0 base); then the margin
-  stays in a zero-size record and the trader is not paid.  `StaleClean`: a zero-size record carries no
-  notional (the engine's PnL for it is 0, the property's formula gives ∓notional;
-  `SatEWitness.c11_needs_staleClean`).
+  stays in a zero-size record and the trader is not paid.
+The former second sub-case hypothesis `SatC11.StaleClean w s tx` (a zero-size record carries no notional)
+is no longer needed: `open_position` treats a stored record of size zero like an absent one, so the
+reversal path — the only one on which the engine's PnL (0 for a zero-size record) and the property's formula
+(∓notional) could disagree — is only taken for records of non-zero size.  The former counterexample now
+passes: `c11_stale_notional_ok`.
 -/
 
 theorem sat_C11 (w : World) (env : Env) (s : Nat) (f : Funds) (tx : Tx) (hwf : WF w)
     (hbh : SatC11.BufferHalf w) (hnf : SatC11.NoFundsAttached w f tx) (hso : SatC11.SenderOutside w s)
-    (hmmr : w.engine.cfg.mmr ≠ 0) (hcl : SatC11.StaleClean w s tx) :
+    (hmmr : w.engine.cfg.mmr ≠ 0) :
     Spec.C11.check (modelStep w env s f tx) = [] := by
   have _ := hwf
-  exact SatC11.sat_C11 w env s f tx hbh hnf hso hmmr hcl
+  exact SatC11.sat_C11 w env s f tx hbh hnf hso hmmr
 
 /-- general form: only the reversal-payout clause can fail -/
 theorem C11_tags (w : World) (env : Env) (s : Nat) (f : Funds) (tx : Tx) (hwf : WF w)
@@ -72,6 +75,12 @@ theorem c11_witness :
         (.engine (.openPosition 10 .sell 780048891 SatEWitness.D 0)))
       = ["funding-skipped-when-closing-by-reversal"] := SatEWitness.c11_witness
 
+/-- the former counterexample to `sat_C11` without `StaleClean` (a zero-size record that still carries
+    margin and notional, then a tiny opposite order): the order is now an increase and the check is empty -/
+theorem c11_stale_notional_ok :
+    Spec.C11.check (modelStep SatEWitness.staleNotional ⟨2, 1000⟩ 100 ⟨0, false⟩
+        (.engine (.openPosition 10 .sell 1000 SatEWitness.D 0))) = [] := SatEWitness.c11_stale_notional_ok.1
+
 /-! ## C15 — per-block price band
 
 Hypotheses of the clean form:
@@ -81,10 +90,18 @@ Hypotheses of the clean form:
   derives from the sign and then trades in the stored direction); counterexample without it:
   `SatEWitness.c15_needs_signDir`.
 * `SatC15.NoPartialClose w env s tx` — **sub-case** (rule 3): the transaction is not a ClosePosition that
-  takes the partial-close path.  On that path clause `partial-close-not-the-configured-fraction` fails:
-  `…[within-requote-rounding]` (known finding, `c15_within_witness`) and also `…[gross]`
-  (`c15_gross_witness`: the re-quote happens at the post-trade price, so for a position that is large
-  relative to the base reserve the deviation exceeds the specification's bound `pre-trade base/quote + 2`).
+  takes the partial-close path.  On that path clause `partial-close-not-the-configured-fraction` fails with
+  tag `…[within-requote-rounding]` (known finding: the close is priced in quote and re-quoted in base;
+  `c15_within_witness`, and `c15_large_position_witness` — 19 units off, within the bound since
+  `Spec.C15.check` bounds the deviation by the larger of the pre- and post-trade exchange rates).
+Sharper general form `C15_tags_within`: in the regular regime of the curve (`Mirror.CurveRegular w`) and with
+a bounded post-trade exchange rate (`SatC15.PostRateBounded`: `⌊base'/quote'⌋ + 2 ≤ 2·quote'` on the vAMM
+traded on, e.g. post-trade price ≥ 1) ONLY the `[within-requote-rounding]` tag can occur: the closed amount
+is at most the configured fraction and short of it by at most `⌊base'/quote'⌋ + 2` (`SatC15.partial_core`,
+`C15Requote.long_requote`; a short closes exactly the configured fraction, `C15Requote.short_requote`).
+The extra hypothesis is needed: `c15_gross_witness` (a long so large that the partial close drains the quote
+reserve to 1 raw unit) shows `…[gross]` under `SignDir`, `CurveRegular` and the mirror property — which is
+why the unconditional `C15_tags` still lists both tags.
 No band hypothesis is needed: with the revised `Spec.C15.band` the band is undefined in a vAMM's
 instantiation block, which was the only case where a reversal's second leg was checked against a
 different band than the first.
@@ -106,6 +123,15 @@ theorem C15_tags (w : World) (env : Env) (s : Nat) (f : Funds) (tx : Tx) (hwf : 
   have _ := hwf
   exact SatC15.C15_tags w env s f tx hsd
 
+/-- sharper general form: in the regular regime of the curve and with a bounded post-trade exchange rate
+    the `[gross]` tag never occurs -/
+theorem C15_tags_within (w : World) (env : Env) (s : Nat) (f : Funds) (tx : Tx) (hwf : WF w)
+    (hsd : Mirror.SignDir w.engine) (hcr : Mirror.CurveRegular w) (hrb : SatC15.PostRateBounded w env s f tx) :
+    ∀ tag ∈ Spec.C15.check (modelStep w env s f tx),
+      tag ∈ ["partial-close-not-the-configured-fraction[within-requote-rounding]"] := by
+  have _ := hwf
+  exact SatC15.C15_tags_within w env s f tx hsd hcr hrb
+
 theorem c15_within_witness :
     Spec.C15.check (modelStep (SatEWitness.c0 (5657 * SatEWitness.D)) ⟨2, 1000⟩ 100 ⟨0, false⟩
         (.engine (.closePosition 10 0)))
@@ -116,35 +142,75 @@ theorem c15_large_position_witness :
         (.engine (.closePosition 10 0)))
       = ["partial-close-not-the-configured-fraction[within-requote-rounding]"] := SatEWitness.c15_large_position_witness
 
+/-- the `[gross]` tag occurs without `PostRateBounded` … -/
+theorem c15_gross_witness :
+    Spec.C15.check (modelStep (SatEWitness.c0 (10^20)) ⟨2, 1000⟩ 100 ⟨0, false⟩
+        (.engine (.closePosition 10 0)))
+      = ["partial-close-not-the-configured-fraction[gross]"] := SatEWitness.c15_gross_witness.1
+
+set_option maxRecDepth 100000 in
+/-- … in a world that satisfies every other hypothesis of `C15_tags_within` (and the mirror property) -/
+theorem c15_gross_witness_hyps :
+    Mirror.SignDir (SatEWitness.c0 (10^20)).engine ∧ Mirror.CurveRegular (SatEWitness.c0 (10^20))
+    ∧ Mirror.MirrorOK (SatEWitness.c0 (10^20)) := by
+  refine ⟨?_, Mirror.Cex.curveB_sound _ (by decide +kernel), ?_⟩
+  · intro p hp
+    have : p = ⟨10, 100, .addToAmm, Integer.newPositive (10^20), 500 * SatEWitness.D, 1100 * SatEWitness.D,
+        Integer.zero, 1⟩ := by
+      simpa [SatEWitness.c0, SatEWitness.world, SatEWitness.eng] using hp
+    subst this
+    exact ⟨fun _ => rfl, fun h => absurd h (by decide +kernel)⟩
+  · intro a x hx _
+    have hm := Mirror.Cex.vamm?_mem _ a x hx
+    have : (a, x) = (10, SatEWitness.vamm (1372 * SatEWitness.D) (1291 * SatEWitness.D) (10^4) 1800
+        (Integer.newPositive (10^20))) := by
+      simpa [SatEWitness.c0, SatEWitness.world] using hm
+    injection this with h1 h2
+    subst h1 h2
+    decide +kernel
+
 /-! ## C17 (engine part) — the caller's limit is applied unchanged
 
-Hypotheses of the clean form:
+Hypothesis of the clean form:
 * `Mirror.SignDir w.engine` — **invariant** (kind a), as for C15.  Needed by the OpenPosition clauses
   (a reversal must flip the sign); counterexample without it: `SatEWitness.c17_needs_signDir`.
-* `SatC17.NoStaleOpposite w s tx` — **sub-case** (rule 3): the sender has no stored record of size 0 whose
-  direction is opposite to the order's side.  With such a record (left by a reversal of equal size)
-  `open_position` takes the reversal path and the re-opening `swap_input` carries `base_asset_limit = 0`:
-  the caller's limit is dropped on a trade that simply opens a position (`c17_witness`, reachable from a
-  fresh deployment in two transactions).
+The former sub-case hypothesis `SatC17.NoStaleOpposite w s tx` (no stored record of size 0 whose direction
+is opposite to the order's side) is gone together with the defect it excluded: `open_position` now treats a
+stored record of size zero like an absent one, so the order takes the increase path and its `swap_input`
+carries the caller's limit.  On the history of the former witness (reachable from a fresh deployment in two
+transactions) the third transaction is now rejected by the limit: `c17_witness`, `c17_limit_exact`.
 The ClosePosition clauses need no hypothesis.
 -/
 
 theorem sat_C17 (w : World) (env : Env) (s : Nat) (f : Funds) (tx : Tx) (hwf : WF w)
-    (hsd : Mirror.SignDir w.engine) (hns : SatC17.NoStaleOpposite w s tx) :
+    (hsd : Mirror.SignDir w.engine) :
     Spec.C17.check (modelStep w env s f tx) = [] := by
   have _ := hwf
-  exact SatC17.sat_C17 w env s f tx hsd hns
+  exact SatC17.sat_C17 w env s f tx hsd
 
-/-- general form: the ClosePosition clauses always hold; only the OpenPosition limit clauses can fail -/
-theorem C17_tags (w : World) (env : Env) (s : Nat) (f : Funds) (tx : Tx) (hwf : WF w) :
+/-- general form, now a corollary of `sat_C17`: under the invariant no tag can occur -/
+theorem C17_tags (w : World) (env : Env) (s : Nat) (f : Funds) (tx : Tx) (hwf : WF w)
+    (hsd : Mirror.SignDir w.engine) :
+    ∀ tag ∈ Spec.C17.check (modelStep w env s f tx), tag ∈ ([] : List String) := by
+  have _ := hwf
+  exact SatC17.C17_tags w env s f tx hsd
+
+/-- without the invariant `SignDir`: the ClosePosition clauses always hold; only the OpenPosition limit
+    clauses can fail (and do, `SatEWitness.c17_needs_signDir`) -/
+theorem C17_tags_noInv (w : World) (env : Env) (s : Nat) (f : Funds) (tx : Tx) (hwf : WF w) :
     ∀ tag ∈ Spec.C17.check (modelStep w env s f tx),
       tag ∈ ["open-base-limit-not-honoured(buy)", "open-base-limit-not-honoured(sell)"] := by
   have _ := hwf
-  exact SatC17.C17_tags w env s f tx
+  exact SatC17.C17_tags_noInv w env s f tx
 
+/-- the former witness of the dropped limit: after open-long / sell-the-same-notional (which leaves a
+    zero-size record of direction `addToAmm`), a sell with `base_asset_limit = 1` is now REJECTED, and the
+    check is empty -/
 theorem c17_witness :
-    Spec.C17.check (modelStep SatEWitness.a2 ⟨4, 3000⟩ 100 ⟨0, false⟩
+    (modelStep SatEWitness.a2 ⟨4, 3000⟩ 100 ⟨0, false⟩
+        (.engine (.openPosition 10 .sell (60 * SatEWitness.D) (10 * SatEWitness.D) 1))).ok = false
+    ∧ Spec.C17.check (modelStep SatEWitness.a2 ⟨4, 3000⟩ 100 ⟨0, false⟩
         (.engine (.openPosition 10 .sell (60 * SatEWitness.D) (10 * SatEWitness.D) 1)))
-      = ["open-base-limit-not-honoured(sell)"] := SatEWitness.c17_witness
+      = [] := SatEWitness.c17_witness
 
 end Perp.Props.SatE
